@@ -32,6 +32,10 @@ const (
 type lockModel struct {
 	writer  int32 // goroutine id + 1 holding exclusively, 0 = none
 	readers int32
+	// pendingW: writers that have "called Lock" and wait. A real RWMutex admits no new reader while
+	// a writer waits (so a goroutine that takes the read lock twice deadlocks if a writer arrives in
+	// between). Whether a waiting writer has already announced itself is a scheduling choice.
+	pendingW int32
 }
 
 type onceModel struct {
@@ -150,7 +154,7 @@ func enabled(g int) bool {
 	}
 	switch s.waitKind {
 	case wRLock:
-		return s.waitLock.writer == 0
+		return s.waitLock.writer == 0 && s.waitLock.pendingW == 0
 	case wWLock:
 		return s.waitLock.writer == 0 && s.waitLock.readers == 0
 	case wOnce:
